@@ -4,15 +4,16 @@ From Coq Require Import List NArith ZArith Bool.
 Import ListNotations.
 From TV Require Import Lib.Obs C01.Model C01.Run C04.Model.
 
-(* input: (max_header_size, max_body_size or None, the stream's max_buffer_size, per-request
+(* input: (max_header_size or None, max_body_size or None, the stream's max_buffer_size, per-request
            override, chunk_size, decompress_request, zlib answers in call order, TCP segments) *)
-Definition input := (nat * option N * N * option N * nat * bool * list gz_entry * list (list N))%type.
+Definition input := (option nat * option N * N * option N * nat * bool * list gz_entry * list (list N))%type.
+Definition mh_of (i : input) : option nat := let '(mh, _, _, _, _, _, _, _) := i in mh.
 Definition mb_of (i : input) : option N := let '(_, mb, _, _, _, _, _, _) := i in mb.
 Definition sbuf_of (i : input) : N := let '(_, _, sb, _, _, _, _, _) := i in sb.
 Definition ov_of (i : input) : option N := let '(_, _, _, ov, _, _, _, _) := i in ov.
 Definition cfg_of (i : input) : cfg :=
   let '(mh, mb, sb, ov, cs, _, _, _) := i in
-  {| max_header := mh; max_body := conn_max_body mb sb; body_override := ov; chunk_pred := Nat.pred cs;
+  {| max_header := conn_max_header mh; max_body := conn_max_body mb sb; body_override := ov; chunk_pred := Nat.pred cs;
      no_keep_alive := false |}.
 Definition dec_of (i : input) : bool := let '(_, _, _, _, _, d, _, _) := i in d.
 Definition tbl_of (i : input) : list gz_entry := let '(_, _, _, _, _, _, t, _) := i in t.
@@ -20,7 +21,18 @@ Definition segs_of (i : input) : list bytes := snd i.
 
 Definition trace (i : input) : list ev :=
   serve seg_ops (server_dlg (dec_of i) (cfg_of i) (tbl_of i)) (cfg_of i) ([], segs_of i).
-Definition run_case (i : input) : obs := obs_of_events (trace i).
+(* very long header values (header blocks around the 64 KiB default limit) are abbreviated in
+   the observable: first 16 bytes and the length *)
+Definition squash_val (v : bytes) : bytes :=
+  if (2000 <? length v)%nat
+  then firstn 16 v ++ [N.of_nat (length v) mod 256; (N.of_nat (length v) / 256) mod 256; N.of_nat (length v) / 65536]%N
+  else v.
+Definition squash_ev (e : ev) : ev :=
+  match e with
+  | EvReq m t v hs => EvReq m t v (map (fun kv => (fst kv, squash_val (snd kv))) hs)
+  | _ => e
+  end.
+Definition run_case (i : input) : obs := obs_of_events (map squash_ev (trace i)).
 
 (* the most body bytes the application may be handed for one request *)
 Definition body_bound (dec : bool) (c : cfg) : N :=
@@ -43,4 +55,4 @@ Definition reqs_ok (B : N) (o : obs) : bool :=
    refused exactly where the reader refuses them *)
 Definition check_case (i : input) (o : obs) : bool :=
   reqs_ok (body_bound (dec_of i) (cfg_of i)) o &&
-  (dec_of i || obs_eqb o (obs_of_events (serve whole_ops plain_dlg (cfg_of i) (concat (segs_of i))))).
+  (dec_of i || obs_eqb o (obs_of_events (map squash_ev (serve whole_ops plain_dlg (cfg_of i) (concat (segs_of i)))))).
